@@ -156,7 +156,12 @@ def trough_predicate(ctx, rule: str = "C08.trough-predicate") -> None:
     lab = ctx.prog.require_class("Labware", rule)
     f = lab.methods.get("is_trough")
     if f is None:
-        ctx.rep.inconclusive(rule, "Labware.is_trough", "property not found")
+        ca = lab.class_assigns.get("is_trough")
+        if ca is not None:
+            ctx.rep.refuted(rule, "Labware.is_trough", f"is_trough is the class attribute `{show(ca)[:30]}`: it follows the class of the object, not whether virtual rows were given "
+                            "(Labware(..., virtual_rows=n) is a trough too)", where=f"{lab.module.relpath}:{ca.lineno}")
+        else:
+            ctx.rep.inconclusive(rule, "Labware.is_trough", "property not found")
         return
     fv = ctx.fv(f)
     selfn = f.params[0]
